@@ -88,7 +88,7 @@ package file
 //@           (old(s.Parameters) == nil && defaults.Parameters != nil ==> s.Parameters == defaults.Parameters) && (old(s.Parameters) == nil && defaults.Parameters == nil ==> (forall k string :: !indom(result.0.Params, k)))
 //@   ensures {C15} [users] result.1 == nil && old(deref(s.Mode)) == "users" ==> result.0.UsersConcurrency == deref(s.Concurrency) && (old(s.Concurrency) != nil ==> s.Concurrency == old(s.Concurrency)) && (old(s.Concurrency) == nil ==> s.Concurrency == defaults.Concurrency)
 //@   ensures [rejected] result.1 != nil ==> result.0 == nil
-//@   modifies s.Rate, s.StartRate, s.EndRate, s.Distribution, s.Weights, s.Stages, s.Concurrency, s.Jitter, s.Volume, s.IterationFrequency, s.Repeat, s.Peak, s.StandardDeviation, s.Parameters
+//@   modifies G12R, G12E, s.Rate, s.StartRate, s.EndRate, s.Distribution, s.Weights, s.Stages, s.Concurrency, s.Jitter, s.Volume, s.IterationFrequency, s.Repeat, s.Peak, s.StandardDeviation, s.Parameters
 //@
 //@ func (*ConfigFile).validateCommonFields
 //@   props C14 C15
@@ -176,6 +176,7 @@ package file
 //@   props C15 C14
 //@   requires stageValueOK(stage) && wfManager(workers) && options.Concurrency >= 1 && output != nil
 //@   dyncall stageCancel : cancelFn
+//@   modifies env, envset, closedchans
 //@   assert before call file.runStage$1 : [exported-before-trigger] forall k string :: indom(stage.Params, k) && setenvOK(k, stage.Params[k]) ==> (envset[k] && env[k] == stage.Params[k])
 //@   assert before call unsetEnvs : [trigger-finished-first] closed(stageDone)
 //@   ensures [none-remain] forall k string :: indom(stage.Params, k) ==> !envset[k]
